@@ -189,6 +189,21 @@ def generateConditions (m : ModelData) (uniq : List String) : List (Condition ×
 def localsByIndex (m : ModelData) (uniq : List String) (g : List Rat) : List (String × List Rat) :=
   (generateConditions m uniq).flatMap fun cd => cd.2.map fun d => (d.name, getLocalParams cd.1 g)
 
+/-- Variant for the correspondence only (no theorem uses it): groups keyed by the target LISTS themselves instead
+    of their printed form (what a repair of observation O-C14-A would do). -/
+def groupsByTargets (m : ModelData) : List (List Data) :=
+  let us := (m.data.map fun d => d.trans.map (·.2)).eraseDups
+  (List.range us.length).map fun ci => m.data.filter fun d => us.idxOf (d.trans.map (·.2)) == ci
+
+def localsByIndexVariant (repaired : Bool) (m : ModelData) (uniq : List String) (g : List Rat) :
+    List (String × List Rat) :=
+  if repaired then
+    ((groupsByTargets m).filterMap fun g => match g with
+      | [] => none
+      | r :: _ => some (mkCondition r.trans uniq, g)).flatMap fun cd =>
+        cd.2.map fun d => (d.name, getLocalParams cd.1 g)
+  else localsByIndex m uniq g
+
 /-- `FitData.get_params(params)`: by NAME in the parameter table (`none` = `IndexError`). -/
 def getParams (d : Data) (table : List (String × Param)) : List (Option Rat) :=
   d.trans.map fun e => match e.2 with
@@ -357,11 +372,11 @@ def showOptRatE : Option Rat → String
 /-- The observation of a query: the parameter table, and for every model and dataset (insertion order) the local
     vector by the index route (`Condition.get_local_params` of the dataset's condition) and by the name route
     (`FitData.get_params`). -/
-def Fit.observe (F : Fit) : String :=
+def Fit.observe (repaired : Bool) (F : Fit) : String :=
   let uniq := F.table.map (·.1)
   let g := F.values
   let perModel := F.models.map fun m =>
-    let byIdx := localsByIndex m uniq g
+    let byIdx := localsByIndexVariant repaired m uniq g
     "{" ++ " ".intercalate (m.data.map fun d =>
       showStr d.name ++ "=" ++ (match byIdx.lookup d.name with
         | some v => showRatList v
@@ -400,7 +415,7 @@ def step (repaired : Bool) (F : Fit) : Action → Fit × String
   | .add mi name ov nx ny => let r := F.addData mi name ov nx ny; (r.1, "add:" ++ showErr r.2)
   | .set name f => let r := F.setField repaired name f; (r.1, "set:" ++ showErr r.2)
   | .fit o => let r := F.fit repaired (fun _ _ _ => o); (r.1, showFitOutcome r.2)
-  | .query => let F' := F.rebuild repaired; (F', F'.observe)
+  | .query => let F' := F.rebuild repaired; (F', F'.observe repaired)
   | .jac mi name sens =>
     let F' := F.rebuild repaired
     (F', match F'.jacRow mi name sens with
@@ -492,8 +507,10 @@ def actions? : Nat → List String → Option (List Action)
   `c14.run <nmodels> {M <nparams> {<name> (N | P value lb ub fixed)}} <actions…>`
      actions: `A mi dsname nov {key (n name | c value repr)} [nan-x] [nan-y]` | `S name (v|l|u|f) x` |
               `F ok [x…]` | `F err Name` | `Q` | `J mi dsname [sens…]`
-     answers the observations of all actions joined by `;`; when the aligned-defaults variant of `_build_fit` would
-     answer differently, that answer follows after ` || `.
+     answers the observations of all actions joined by `;`; when the repaired variant (aligned defaults in
+     `_build_fit`, condition groups keyed by the target lists) would answer differently, that answer follows after
+     ` || `; a Jacobian probe answers the row the code's scatter gives and, after `!`, the chain-rule row when it
+     differs.
   `c14.unique [..names..]`  → unique list and inverse indices -/
 def handle : List String → Option String
   | "c14.run" :: nm :: rest => do
